@@ -726,8 +726,13 @@ def exec_interact(rig, steps, tag0, tamper=None):
 
         def step(stage, arg):
             if stage == 'inject':
-                rig.reset_logs()
+                if i not in cut:
+                    rig.reset_logs()
                 if name == 'InteractCopyIn':
+                    if i in cut:
+                        # the first part was typed one select() earlier (see `first_part`)
+                        os.write(arg, cut[i][1])
+                        return
                     # utf-16: the user's keystrokes are a UTF-16 stream of their own, which starts with a
                     # byte-order mark once per interact() session (copied to the child like any keystroke)
                     kpre[i] = codecs.BOM_UTF16 if (mode == 'utf16' and not kpre) else b''
@@ -748,8 +753,27 @@ def exec_interact(rig, steps, tag0, tamper=None):
                 obs.append(o)
         return step, name, inst
     made = [mk(i, lab, succ) for i, (lab, succ) in enumerate(steps)]
+    # Keystrokes that reach interact() in TWO reads of the terminal, the cut inside a character where the
+    # encoding has one (a slow line, a paste cut by the 1000-byte read): the child must receive the same bytes and
+    # the logs the same text as when they arrive at once.  Two steps of three are typed that way.
+    cut = {}
+    script = []
+    for i, (step, name, inst) in enumerate(made):
+        if name == 'InteractCopyIn' and (tag0 + i) % 3 != 0:
+            kb = inst.keys(steps[i][1]['peerGot'][0])
+            at = _cut_inside_character(kb, WIRE[mode]) if mode != 'bytes' else len(kb) // 2
+            if at:
+                def first_part(stage, arg, i=i, kb=kb, at=at):
+                    if stage == 'inject':
+                        rig.reset_logs()
+                        kpre[i] = codecs.BOM_UTF16 if (mode == 'utf16' and not kpre) else b''
+                        cut[i] = (kpre[i] + kb[:at], kb[at:])
+                        os.write(arg, cut[i][0])
+                script.append(first_part)
+        script.append(step)
     rig.reset_logs()
-    exc, restored, ran = rig.interact([m[0] for m in made])
+    exc, restored, ran = rig.interact(script)
+    ran -= sum(1 for i in cut)
     if tamper:
         tamper(steps)
     if exc is not None:
@@ -765,10 +789,20 @@ def exec_interact(rig, steps, tag0, tamper=None):
             want_user = o['pre'] + inst.out_bytes(succ['userGot'][0], with_end=False)
             if o['user'] != want_user:
                 add('other:interact-output', {'got': short(o['user']), 'want': short(want_user)})
-        check_logs(rig, inst, succ, 'interact', add, with_end=False, snapshot=o['logs'])
+        check_logs(rig, inst, succ, 'interact', add, with_end=False, snapshot=o['logs'], granularity=idx not in cut)
     if len(obs) < len(steps):
         found.append(('C11:interact', {'what': 'interact() returned after %d of %d scripted steps' % (len(obs), len(steps)), 'op': 'interact'}))
     return found
+
+
+def _cut_inside_character(kb, codec):
+    """a position inside `kb` at which an incremental decoder is left holding part of a character (0: none)"""
+    for at in range(1, len(kb)):
+        d = codecs.getincrementaldecoder(codec)()
+        d.decode(kb[:at])
+        if d.getstate()[0]:
+            return at
+    return 0
 
 
 def _known(job, clause, detail):
